@@ -235,12 +235,12 @@ func ruleC03Reverse(c *Ctx) {
 		return
 	}
 	fl, rl := cl.FeedLoops[0], cl.ReadLoops[0]
-	if fl.Descending {
+	if fl.Desc() {
 		c.hold("C03.reverse", "request-descending", posOf(fl.L.Head.Instrs[0]), "commits are requested from the end of the list (parents before children)")
 	} else {
 		c.violate("C03.reverse", "request-descending", posOf(fl.L.Head.Instrs[0]), fnName(fl.Fn), "commits are requested in enumeration order: children would be processed before their parents")
 	}
-	if rl.Descending {
+	if rl.Desc() {
 		c.hold("C03.reverse", "read-descending", posOf(rl.L.Head.Instrs[0]), "commits are read back from the end of the list")
 	} else {
 		c.violate("C03.reverse", "read-descending", posOf(rl.L.Head.Instrs[0]), name, "commits are read back in enumeration order while being requested in reverse")
@@ -1040,8 +1040,73 @@ func typeNameOfVarOwner(v *types.Var) string { return v.Pkg().Name() }
 // here under C02's name.
 func ruleC02SizeSource(c *Ctx) {
 	c.RuleAlias = map[string]string{"C05.siblings": "C02.size-source"}
-	defer func() { c.RuleAlias = nil }()
 	ruleC05Siblings(c)
+	c.RuleAlias = nil
+	// the size recorded for a commit / tag is the length of the object as it
+	// was handed to the parser, not of a normalised or extended copy
+	for _, name := range []string{"ParseCommit", "ParseTag"} {
+		f := c.fn("/git", "", name)
+		if f == nil {
+			continue
+		}
+		var data *ssa.Parameter
+		for _, p := range f.Params {
+			if isStringish(p.Type()) {
+				data = p
+			}
+		}
+		if data == nil {
+			continue
+		}
+		n := 0
+		allInstrs(f, func(in ssa.Instruction) {
+			st, ok := in.(*ssa.Store)
+			if !ok {
+				return
+			}
+			fa, ok := st.Addr.(*ssa.FieldAddr)
+			if !ok || fieldOfAddr(fa).Var.Name() != "Size" || countKind(fieldOfAddr(fa).Var.Type()) == "" {
+				return
+			}
+			n++
+			// NewCount32(uint64(len(X)))
+			okLen := false
+			var walk func(v ssa.Value, depth int)
+			walk = func(v ssa.Value, depth int) {
+				if depth > 6 {
+					return
+				}
+				switch x := c.resolve(v).(type) {
+				case *ssa.Convert:
+					walk(x.X, depth+1)
+				case *ssa.ChangeType:
+					walk(x.X, depth+1)
+				case *ssa.Call:
+					if isBuiltin(&x.Call, "len") {
+						if c.resolve(x.Call.Args[0]) == ssa.Value(data) {
+							okLen = true
+						}
+						return
+					}
+					for _, a := range x.Call.Args {
+						walk(a, depth+1)
+					}
+				}
+			}
+			walk(st.Val, 0)
+			key := "object-length:" + name
+			if okLen {
+				c.hold("C02.size-source", key, st.Pos(), "Size = len(the object data handed to "+name+")")
+			} else {
+				c.violate("C02.size-source", key, st.Pos(), fnName(f), "the recorded size is not the length of the object data as passed in: a normalised, trimmed or extended copy is measured, so the reported maximum is off by the difference")
+			}
+		})
+		if n == 0 {
+			c.notDecided("C02.size-source", "object-length:"+name, f.Pos(), name+" stores no Size field")
+		}
+	}
+	// references that point directly at a blob or tree are roots of the walk too
+	c.checkCollect("C02.roots")
 }
 
 // ruleC09Records: the protocol between an object and the objects waiting
